@@ -9,6 +9,18 @@ COMMON_NOTE = ("Trusted: Coq 8.16.1 kernel and its VM (vm_compute; no native_com
                "(virtual clock, scheduler, canonicalisation, case printer). ")
 # id -> (text, note, technique, design_ref)
 CLAIMED = {
+ "C09": ("Theorem: for every pickler/MAC meeting an explicit contract (dumps/loads round trip, pickles not digit-only, 'bytes:' payloads rejected with the "
+         "pickler's own error class or passed through, hex MAC), every signer configuration, key and value, decode(encode v) = v in the Gallina image of "
+         "Serializer/HashSigner. On every run the real Serializer inside Memory is compared with the model byte for byte on the stored blob and on the "
+         "values read back through get and get_many, with pickle/json/hmac entering as recorded tables.",
+         "pickle, json, hmac, hashlib are not verified: they are parameters constrained by hypotheses that the run monitors; values the pickler itself cannot round-trip are outside the quantifier.",
+         "Coq proof (string-level framing lemmas) + differential correspondence with recorded oracle tables", "3/C09"),
+ "C10": ("Theorems for any unpickler, any MAC, any blob: every byte string handed to the unpickler is the payload of a blob whose signature verifies for the "
+         "configured secret and the key being read; a non-verifying blob reads as default or UnSecureDataError and nothing else; with an injective MAC a swapped "
+         "payload never verifies. Mutated / foreign blobs are placed in a real Memory store and read through get, get_many, get_match with an instrumented unpickler; "
+         "the oracle recomputes MACs with the hmac module independently of cashews.",
+         "HMAC is idealised only in the last corollary; a blob naming the weak 'sum' digest is outside the property's quantifier.",
+         "Coq proof (structure of decode/check_sign) + differential correspondence over blob mutations", "3/C10"),
  "C17": ("Theorems: for every finite prefix set and key the first match over the reverse-sorted prefixes is the longest registered prefix of the key "
          "(own total order on strings, insertion sort, sortedness invariant); multi-key reads re-assemble positionally for any routing and any "
          "positional backends; a disabled command never reaches the backend and yields the default-shaped result; enable/disable in one task's "
